@@ -110,6 +110,13 @@ def rollback(repo: Repo) -> RuleRun:
         check_from(h, f"except {ast.unparse(h.stmt.type) if h.stmt.type is not None else ''}".strip(), h.stmt)
     # the minimiser is inside the try
     r.check(any(h.id in g.succ[mins[0].id] for h in handlers), fn, "minimiser runs inside the try", "scipy.optimize.minimize is called outside the try block: a degenerate cell aborts the optimisation half-applied", mins[0].stmt, key="minimise-in-try")
+    # the minimiser is confined to the clamp's bounds, whatever the method
+    mc = [c for c in node_calls(mins[0]) if (attr_chain(c.func) or "").endswith("minimize")][0]
+    bkw = [k for k in mc.keywords if k.arg == "bounds"]
+    ok_b = len(bkw) == 1 and isinstance(bkw[0].value, ast.Attribute) and bkw[0].value.attr == "bounds" and ast.unparse(bkw[0].value.value) == "clamp"
+    r.check(ok_b, fn, "minimize(..., bounds=clamp.bounds)", f"the minimiser is called with bounds={ast.unparse(bkw[0].value) if bkw else 'nothing'}: for some methods the clamped vertex can leave the bounds the user gave", mc, key="bounds")
+    mkw = [k for k in mc.keywords if k.arg == "method"]
+    r.check(len(mkw) == 1 and ast.unparse(mkw[0].value) == "method", fn, "the requested method is used", "the minimisation method requested by the caller is not handed to scipy", mc, key="method")
     # objective moves the clamped junction only
     nested = [n for n in ast.walk(fn.node) if isinstance(n, ast.FunctionDef) and n is not fn.node]
     r.require(len(nested) == 1, "optimize_clamp: objective closure not found")
@@ -188,7 +195,7 @@ def who_writes_points(repo: Repo) -> RuleRun:
 
     # abstract evaluation of GridBase.update
     upd = repo.func("optimize.grid.GridBase.update")
-    for with_links in (False, True):
+    for with_links in (False, True, 2):
         grid = Obj("grid", cls=repo.cls("optimize.grid.GridBase"))
         pts = [Sym(f"x{i}") for i in range(5)]
         grid.set("points", list(pts))
@@ -202,18 +209,26 @@ def who_writes_points(repo: Repo) -> RuleRun:
         link = Obj("link")
         link.set("leader", Sym("old-leader"))
         link.set("follower", Sym("old-follower"))
+        link2 = Obj("link2")
+        link2.set("leader", Sym("old-leader2"))
+        link2.set("follower", Sym("old-follower2"))
         if with_links:
             il = Obj("indexed_link")
             il.set("link", link)
             il.set("follower_index", 3)
             js[1].set("links", [il])
+        if with_links == 2:
+            il2 = Obj("indexed_link2")
+            il2.set("link", link2)
+            il2.set("follower_index", 4)
+            js[1].get("links").append(il2)
         grid.set("junctions", js)
 
-        def hook(ev, call: ast.Call, name, link=link):
+        def hook(ev, call: ast.Call, name, link=link, link2=link2):
             if isinstance(call.func, ast.Attribute) and call.func.attr == "update" and len(call.args) == 0:
                 recv = ev.eval(call.func.value)
-                if recv is link:
-                    link.set("follower", ("moved-with", link.get("leader")))
+                if recv is link or recv is link2:
+                    recv.set("follower", ("moved-with", recv.get("leader")))
                     return None
             return NO_MATCH
 
@@ -223,9 +238,11 @@ def who_writes_points(repo: Repo) -> RuleRun:
         want[1] = Sym("newpos")
         if with_links:
             want[3] = ("moved-with", Sym("newpos"))
-        r.check(after == want, upd, f"update(1, p){' with a link 1->3' if with_links else ''}: points {after}", f"GridBase.update(1, newpos){' with a link to point 3' if with_links else ''} leaves the point array as {after}; expected {want} (only the given point and its link followers move; the follower is computed after the leader was set)", upd.node, key=f"update:{'links' if with_links else 'plain'}")
+        if with_links == 2:
+            want[4] = ("moved-with", Sym("newpos"))
+        r.check(after == want, upd, f"update(1, p) with {int(with_links)} link(s): points {after}", f"GridBase.update(1, newpos) with {int(with_links)} link(s) leaves the point array as {after}; expected {want} (the given point and EVERY link follower move, nothing else; a follower is computed after its leader was set)", upd.node, key=f"update:{int(with_links)}-links")
         want_ret = "grid-quality" if with_links else "q1"
-        r.check(repr(res) == want_ret, upd, f"returns {res}", f"GridBase.update returns {res!r}; expected the {'grid' if with_links else 'junction'} quality", upd.node, key=f"update-return:{'links' if with_links else 'plain'}")
+        r.check(repr(res) == want_ret, upd, f"returns {res}", f"GridBase.update returns {res!r}; expected the {'grid' if with_links else 'junction'} quality", upd.node, key=f"update-return:{int(with_links)}-links")
 
     # call sites of GridBase.update
     sites = []
